@@ -5,6 +5,12 @@ const ruleW1 = "one evaluation = one seeded simulated run of galaxy-ipam (genera
 	"binding was applied AND (a scheduling decision with >=2 enabled tasks occurred OR a fault fired). distinct_nontrivial counts distinct " +
 	"signatures = sha256 of the sequence of (task kind, parked-on kind) at contested decisions plus the sequence of fired faults."
 
+const ruleEnum = "one evaluation = one simulated run. For every sampled history (a seeded fault-free baseline run whose recorded choices fix the " +
+	"schedule) the run is re-executed once per injection point k and mode: C05: every API-server call of galaxy-ipam x {call k returns an error and is not " +
+	"applied, process dies right before call k, right after call k}; C08: every FloatingIP object creation x {creation fails}. Enumeration is exhaustive over the " +
+	"injection points of each sampled history (capped, see counters enum.truncated), histories are sampled. A sub-run is non-trivial by construction (its fault " +
+	"fires); distinct_nontrivial counts distinct (baseline schedule signature, mode, k)."
+
 var assumeW1 = []string{
 	"kube-apiserver/etcd, informers/listers, kube-scheduler, workload controllers and kubelet are simulated (simkube); galaxy-ipam code (floatingip, schedulerplugin, ipam/api) runs unmodified except at the rewritten seams (sync, time, wait, keymutex, klog, map iteration, go statements, the one select)",
 	"the simulated API server is linearizable; listers read a lagging view fed by per-kind FIFO event queues; one handler per informer at a time",
@@ -18,6 +24,9 @@ var realVsStub = map[string]interface{}{}
 func init() {
 	for _, p := range []string{"C01", "C02", "C03", "C04", "C06", "C07", "C09", "C10", "C11"} {
 		specs[p] = propSpec{World: "ipam", Level: "exploration", Quick: 25, Thorough: 600, Rule: ruleW1, Assume: assumeW1}
+	}
+	for _, p := range []string{"C05", "C08"} {
+		specs[p] = propSpec{World: "ipam", Level: "fault_enumeration", Quick: 25, Thorough: 600, Rule: ruleEnum, Assume: assumeW1}
 	}
 	realVsStub["ipam"] = map[string]string{
 		"real": "pkg/ipam/floatingip (crdIpam, store, pool config), pkg/ipam/schedulerplugin (Filter, Bind, unbind, Release, resync, event loop, Run/Init periodic loops, policies, crdKey), pkg/ipam/api (restful handlers on an in-process container), pkg/api/k8s/eventhandler, pkg/utils/{nets,page,httputil}, pkg/api/galaxy/constant",
